@@ -8,7 +8,7 @@ import proto, gen, implutil
 THEOREMS = ['C16_relabel', 'C16_edit', 'C16_frame', 'C16_value', 'C16_grow', 'C16_connected', 'C16_routing']
 RULE = ("cycle tables produced by compute_features(burst_method='cycles') on generated signals (bursty / noisy families, both centrings) with a grid of thresholds, then "
         "recompute_edges with the same thresholds, with every *_threshold lowered by r in {0.1, 0.3}, with one threshold set to 0, through the function and through "
-        "Bycycle.recompute_edges(reduction); plus synthetic tables with prescribed burst layouts (bursts at distance 1, at the table ends); judge: input table untouched, only "
+        "Bycycle.recompute_edges(reduction) (also on an object with a history: fitted and edge-recomputed on another recording, then loaded), one table in five WITHOUT sample columns (return_samples=False); plus synthetic tables with prescribed burst layouts (bursts at distance 1, at the table ends); judge: input table untouched, only "
         "amp_consistency / period_consistency of cycles immediately outside a burst and is_burst may differ, new values = the one-sided Lean specification (written, not "
         "lost), labels = Lean threshold-and-run rule on the edited table, old bursts stay and every new burst touches an old one when thresholds are unchanged; "
         "distinct = distinct (table, thresholds); non-trivial = the table has at least one burst and one edge value changes")
@@ -52,13 +52,14 @@ def generate(ctx):
                'period_consistency_threshold': float(rng.choice([0.4, 0.6])), 'monotonicity_threshold': float(rng.choice([0.4, 0.7])),
                'min_n_cycles': int(rng.choice([1, 2, 3]))}
         cases.append(dict(kind='signal', seed=int(rng.integers(1 << 30)), center=str(rng.choice(['peak', 'trough'])), th0=th0,
-                          mode=str(rng.choice(['same', 'same', 'reduce0.1', 'reduce0.3', 'zero_ac'])), via=str(rng.choice(['func', 'func', 'object']))))
+                          mode=str(rng.choice(['same', 'same', 'reduce0.1', 'reduce0.3', 'zero_ac'])), via=str(rng.choice(['func', 'func', 'object'])),
+                          rs=bool(i % 5 != 2)))          # (one table in five WITHOUT sample columns: return_samples=False)
     for i in range(ctx.scale(200, 2000)):
         n = int(rng.integers(3, 16))
         b = np.zeros(n, bool); pos = 1
         while pos < n - 1:
             ln = int(rng.integers(1, 4)); val = bool(rng.integers(2)); b[pos:min(pos + ln, n - 1)] = val; pos += ln
-        cases.append(dict(kind='table', seed=int(rng.integers(1 << 30)), n=n, b=proto.enc_bits(b), pc=bool(rng.integers(2))))
+        cases.append(dict(kind='table', seed=int(rng.integers(1 << 30)), n=n, b=proto.enc_bits(b), pc=bool(rng.integers(2)), nosamp=bool(i % 6 == 4)))
     return cases
 
 def _make_table(c):
@@ -68,7 +69,7 @@ def _make_table(c):
                        'amp_fraction': r.random(n), 'monotonicity': r.random(n), 'amp_consistency': r.random(n), 'period_consistency': r.random(n)})
     df.loc[[0, n - 1], ['amp_consistency', 'period_consistency']] = np.nan
     df['volt_amp'] = (df.volt_rise + df.volt_decay) / 2
-    df['sample_peak' if c['pc'] else 'sample_trough'] = np.arange(n)
+    if not c.get('nosamp'): df['sample_peak' if c['pc'] else 'sample_trough'] = np.arange(n)
     df['is_burst'] = b
     th = {'amp_fraction_threshold': 0.0, 'amp_consistency_threshold': float(r.choice([0.3, 0.6])), 'period_consistency_threshold': float(r.choice([0.3, 0.6])),
           'monotonicity_threshold': float(r.choice([0.0, 0.5])), 'min_n_cycles': int(r.choice([1, 2, 3]))}
@@ -85,10 +86,10 @@ def evaluate(ctx, cases):
             s = gen.make_signal(rr, family=str(rr.choice(['bursty', 'bursty', 'sum', 'noise'])), fs=250, f0=10)
             try:
                 if c['via'] == 'object':
-                    bm = Bycycle(center_extrema=c['center'], thresholds=dict(c['th0']))
+                    bm = Bycycle(center_extrema=c['center'], thresholds=dict(c['th0']), return_samples=c.get('rs', True))
                     implutil.quiet(bm.fit, s['sig'], s['fs'], s['f_range']); df = bm.df_features
                 else:
-                    df = implutil.quiet(compute_features, s['sig'], s['fs'], s['f_range'], center_extrema=c['center'], threshold_kwargs=dict(c['th0']))
+                    df = implutil.quiet(compute_features, s['sig'], s['fs'], s['f_range'], center_extrema=c['center'], threshold_kwargs=dict(c['th0']), return_samples=c.get('rs', True))
             except Exception as e:
                 plan.append(dict(skip=type(e).__name__)); continue
             th = dict(c['th0'])
@@ -106,14 +107,29 @@ def evaluate(ctx, cases):
         before = df.copy(deep=True)
         try:
             if c['kind'] == 'signal' and c['via'] == 'object' and (c['mode'] == 'same' or red is not None):
+                if c['seed'] % 2 == 1:
+                    # an object with a HISTORY: fitted on another recording and edge-recomputed with the same reduction, then the table of this case
+                    # is loaded into it; the recomputation that follows must be the one of the loaded table
+                    s2 = gen.make_signal(np.random.default_rng(c['seed'] + 1), family='bursty', fs=250, f0=10)
+                    bm2 = Bycycle(center_extrema=c['center'], thresholds=dict(c['th0']), return_samples=c.get('rs', True))
+                    try:
+                        implutil.quiet(bm2.fit, s2['sig'], s2['fs'], s2['f_range']); implutil.quiet(bm2.recompute_edges, red)
+                    except Exception:
+                        pass
+                    bm2.load(df, s['sig'], s['fs'], s['f_range']); bm = bm2
                 implutil.quiet(bm.recompute_edges, red); out_df = bm.df_features
             else:
                 out_df = implutil.quiet(recompute_edges, df, (implutil.np_scalars(th) if len(df) % 3 == 1 else th))       # (a third with numpy-scalar threshold values)
             err = None
         except Exception as e:
             out_df, err = None, type(e).__name__ + ': ' + str(e)[:120]
-        reqs += ['edges.model %s %s %s' % ('T' if pc else 'F', _rows(before), _th(th)), 'edges.spec %s %s %s' % ('T' if pc else 'F', _rows(before), _th(th))]
+        # the functions recognise the centring by the presence of a `sample_peak` column: the MODEL of the code follows that (a table without sample
+        # columns is paired the trough-centred way), the SPECIFICATION uses the table's true centring
+        has_samples = any(col.startswith('sample_') for col in before.columns)
+        reqs += ['edges.model %s %s %s' % ('T' if (pc and has_samples) else 'F', _rows(before), _th(th)), 'edges.spec %s %s %s' % ('T' if pc else 'F', _rows(before), _th(th))]
         plan.append(dict(before=before, after_input=df, out=out_df, err=err, th=th, j=len(reqs) - 2, same=(c['kind'] == 'signal' and c['mode'] == 'same')))
+        if pc and not has_samples:      # (what the known finding predicts: the trough-centred pairing)
+            reqs.append('edges.spec F %s %s' % (_rows(before), _th(th))); plan[-1]['j3'] = len(reqs) - 1
     ans = proto.run_driver(reqs)
     # the label rule is judged on the implementation's OWN output feature values (so that float rounding of a
     # recomputed ratio that lands exactly on a threshold cannot masquerade as a logic error)
@@ -177,7 +193,12 @@ def evaluate(ctx, cases):
             return True
         judge_ok = cmp(spec, 'judge', True)
         corr_ok = cmp(model, 'model', False)
+        fkey = None
+        if not judge_ok and 'j3' in p and cmp(ans[p['j3']], 'known', True):
+            # KNOWN FINDING (known_findings.json): a PEAK-centred table WITHOUT sample columns is paired the trough-centred way; the output is exactly
+            # the specification evaluated with that pairing - anything else on such a table is still reported as a violation
+            fkey = 'peak-centred-table-without-sample-columns'; ctx.hist('known_finding', fkey)
         nt = p['err'] is None and bool(p['before']['is_burst'].any()) and info.get('changed_rows', 0) > 0
         ctx.hist('kind', c['kind'] + ':' + c.get('mode', ''))
-        out.append(Result(c, judge_ok=judge_ok, corr_ok=corr_ok, sig=key, nontrivial=nt, info=info))
+        out.append(Result(c, judge_ok=judge_ok, corr_ok=corr_ok, sig=key, nontrivial=nt, info=info, finding_key=fkey))
     return out
